@@ -3,7 +3,7 @@
    No Extract Constant, no further Extract Inductive. *)
 From Coq Require Import ZArith List.
 From Coq Require Extraction ExtrOcamlBasic.
-From BM Require Import Model.Layout Model.View Model.Spec Model.Iter Model.Rebase Model.Assign.
+From BM Require Import Model.Layout Model.View Model.Spec Model.Iter Model.Rebase Model.Assign Model.Compare.
 Extraction Language OCaml.
 Extraction "model.ml"
   mk_layout root_view run_ops apply_op dom_op exec_op
@@ -13,5 +13,6 @@ Extraction "model.ml"
   it_begin it_end it_inc it_dec it_add it_sub it_diff it_eq it_lt it_ne it_gt it_le it_ge it_deref it_index
   er_begin er_end er_size e_inc e_dec e_add e_sub e_assign e_diff e_lt e_eq e_deref e_index er_at er_front er_back
   assign_view move_view fill_view swap_views assign_vals x_sizes_eq footprint e_addr
+  v_eq v_ne v_lt v_le v_gt v_ge v_tree flat_t
   twin_op twin_ops norm firsts_of diag_ok v_first
   v_index x_from_linear x_to_linear x_next_canonical x_prev_canonical x_intersection x_eq l_call.
